@@ -29,5 +29,5 @@ try:
         r = sh("cd /verif && ./check %s %s 2>/dev/null | grep -v '^VIOLATION' | head -%s" % (c, tier, os.environ.get("LINES", "8")), capture_output=True)
         print("== %s:\n%s" % (c, r.stdout))
 finally:
-    sh("git -C /repo checkout -- .")
+    sh("git -C /repo checkout -- . && git -C /repo clean -fdq -- src tests benches")
     print("restored:", sh("git -C /repo status --porcelain --untracked-files=no", capture_output=True).stdout.strip() == "")
